@@ -1,6 +1,6 @@
 (* Extraction of the executable models to OCaml.  ExtrOcamlBasic only: N, Z, positive, nat stay inductive. *)
 From Coq Require Import Extraction ExtrOcamlBasic.
-From FMP Require Import Base.Bytes Model.Generated Model.Instrument Model.Tags Model.Events Model.Props Model.Msgpack Model.Frame Model.Remote Model.Uri.
+From FMP Require Import Base.Bytes Model.Generated Model.Instrument Model.Tags Model.Events Model.Props Model.Msgpack Model.Frame Model.Remote Model.Uri Model.Timer Model.Connection Model.ConnProps Model.ConnRun Model.ConnCfg Model.CTransport Model.Tls.
 
 Extraction Language OCaml.
 Extraction "model.ml"
@@ -12,4 +12,9 @@ Extraction "model.ml"
   Frame.continues Frame.outcome_of_msg Frame.split_method Frame.has_compressor
   Remote.clean Remote.new_groups Remote.to_string Remote.parse_remote
   Remote.a_fresh Remote.a_run Remote.a_first_bad
-  Uri.parse_uri Uri.uri_pred Uri.uri_string Uri.use_tls.
+  Uri.parse_uri Uri.uri_pred Uri.uri_string Uri.use_tls
+  Timer.tm0 Timer.tmrun Timer.wait_times Timer.random_delay
+  Connection.new_cmd Connection.cstep ConnProps.c14_one_dial ConnProps.c14_sequences ConnProps.c15_commands ConnProps.c16_delay
+  ConnRun.run_script ConnRun.seq_projection ConnRun.cmd_projection ConnCfg.expected_ccfg
+  CTransport.ct0 CTransport.ctstep CTransport.ct_view
+  Tls.dial Tls.transport_created.
